@@ -566,7 +566,7 @@ pub fn test_lsp_config(c: &LspCfgCase, ctx: &mut CaseCtx) -> Result<(), String> 
     probes.dedup();
     probes.truncate(24);
 
-    let res: Result<(Vec<crate::lsp::Diag>, Vec<(usize, Value)>), crate::lsp::LspError> = SRV.with(|slot| {
+    let res: Result<(Vec<crate::lsp::Diag>, Vec<(usize, Value)>, Vec<crate::lsp::Diag>), crate::lsp::LspError> = SRV.with(|slot| {
         let mut slot = slot.borrow_mut();
         if slot.is_none() {
             let sb = crate::lsp::Sandbox::new("c11");
@@ -588,15 +588,18 @@ pub fn test_lsp_config(c: &LspCfgCase, ctx: &mut CaseCtx) -> Result<(), String> 
                 let pos = index_to_pos(&text, *p);
                 actions.push((*p, srv.code_actions(&uri, (pos.line, pos.col), (pos.line, pos.col))?));
             }
+            // the same text sent again as an edit: the configuration still applies after the
+            // code-action requests
+            let d2 = srv.change(&uri, 2, &c.text)?;
             srv.close(&uri)?;
-            Ok((d, actions))
+            Ok((d, actions, d2))
         })();
         if r.is_err() {
             *slot = None;
         }
         r
     });
-    let (got, actions) = match res {
+    let (got, actions, got_again) = match res {
         Ok(d) => d,
         Err(e) => {
             ctx.infra(e);
@@ -625,6 +628,14 @@ pub fn test_lsp_config(c: &LspCfgCase, ctx: &mut CaseCtx) -> Result<(), String> 
         return Err(format!(
             "harper-ls with linters={} dialect={dialect_name} publishes {:?} for {:?}; the model (curated overlaid with the user's choices) gives {:?}",
             Value::Object(linters), a, c.text, b
+        ));
+    }
+    let mut a2: Vec<String> = got_again.iter().map(|d| format!("{:?}-{:?} {}", d.start, d.end, d.message)).collect();
+    a2.sort();
+    if a2 != b {
+        return Err(format!(
+            "harper-ls with linters={} dialect={dialect_name}: after {} code-action requests an edit that re-sends {:?} publishes {:?}; this configuration gives {:?}",
+            Value::Object(linters), actions.len(), c.text, a2, b
         ));
     }
     // the lints behind the code actions (every group of actions ends with an "ignore" command
